@@ -38,7 +38,12 @@ CLAIMED["C14"] = dict(
    ref="DESIGN.md §6 C14",
    note="Trusts: SimBackend's model of the io_uring backend (open/close immediate, read/write/flush asynchronous), the history model of the ownership rules, the atomic-turn model. Not judged (statement silent): a handle delivered to a process whose termination was already reported; operations on closed resources.",
    technique="deterministic simulation with fault injection: seeded interleaving + backend-fault search with a reference model of ownership replayed over the recorded history")
-PENDING = {k: 'claimed in DESIGN.md; check under construction in this revision (not yet registered)' for k in ['C05','C06','C10','C11','C13']}
+CLAIMED["C06"] = dict(
+   text="Programs dominated by heap binaries (ropes, repeats, slices, literals) store them in locals and closures, pass them as spawn captures and arguments together, send them bare / in tuples / inside function captures, await them once, twice and from several processes, filter them with closures that captured a heap binary, leave them in mailboxes, drop them in server loops, hold them across reclamation cycles and rebind them across REPL lines (compaction, orphan release). Under schedules weighted to 1-3 instruction slices, after every worker turn the real executor's accounting is checked: count>0 <=> reachable (check_refcounts), no reachable slot reclaimed, free pool well-formed, no slot that is neither reachable nor reclaimed nor queued for reclamation, and a shadow copy of every live slot keeps its bytes until the slot is reclaimed; the client's result must equal the model bytes. A coverage matrix of root kinds (stack, locals, mailbox, result, select sources/receiving, awaiting, closure, tuple, constant cache, in-flight spawn/message, REPL compaction, slot reuse) must be non-zero or the check fails as blind. Sampling, not proof.",
+   ref="DESIGN.md §6 C06",
+   note="Trusts: Executor::reachable_heap_indices as the definition of 'reachable' (the runtime's own tracing oracle), the verif accessors, the episode templates' byte model. 'Only via select_state.receiving' cannot exist at a turn boundary (the mailbox copy is still there) and is reported, not required.",
+   technique="deterministic simulation: seeded interleaving/quantum search with per-turn accounting invariants, shadow-copy oracle and byte model")
+PENDING = {k: 'claimed in DESIGN.md; check under construction in this revision (not yet registered)' for k in ['C05','C10','C11','C13']}
 
 def main():
     checks = []
